@@ -228,8 +228,10 @@ PROPS['C17'] = {
                    'never un-pinned; durable, hence enforced after restart) - shared with C13; AxolotlManager.create_session: an untrusted '
                    'bundle without auto-trust raises the library exception and touches nothing, with auto-trust exactly one saveIdentity of '
                    'exactly that key for exactly that contact, a trusted bundle never writes the pin; trust_identity; '
-                   'AxolotlReceivelayer.handleEncMessage (889 paths): the pinned key is only ever touched when the auto-trust option is on, at '
-                   'most one receipt / retry / key fetch per message, a receipt sent from here names the message.  NOT decided: that messaging '
+                   'AxolotlReceivelayer.handleEncMessage (about 1000 paths): the pinned key is only ever touched when the auto-trust option is on '
+                   '(stack property, default OFF), and every outcome of the decryption is pinned to its reaction (see C03 (h)): in '
+                   'particular an untrusted identity without auto-trust leads to NOTHING (no pin change, no receipt, no retry, no key fetch) '
+                   'and with auto-trust to trust_identity before the message is handled again.  NOT decided: that messaging '
                    'resumes after auto-trust and that no message is encrypted for the new identity (inside python-axolotl: SessionBuilder / '
                    'SessionCipher under assumed contracts): level other.  Send side (contracts/C03_sendpaths.py): the continuation of a key '
                    'fetch (getKeysFor) attempts one session per answered jid with ITS bundle and the auto-trust property with default OFF, '
@@ -407,14 +409,20 @@ PROPS['C03'] = {
                    'handleSenderKeyMessage decrypt this stanza\'s payload for its author once, parse a v2 payload, and forward exactly ONE stanza '
                    'upward - the rebuilt envelope with one proto child made from exactly the decrypted plaintext, attached before forwarding - '
                    'and nothing downward (group message without a sender key: one retry request instead); parseAndHandleMessageProto rejects an '
-                   'empty payload and hands a sender-key distribution to the manager for the participant of this stanza, unchanged; onMessage.',
+                   'empty payload and hands a sender-key distribution to the manager for the participant of this stanza, unchanged; onMessage.  '
+                   '(h) outcomes (handleEncMessage, shared with C17): decrypt_* raise the library-independent NoSession / InvalidKeyId / '
+                   'InvalidMessage / DuplicateMessage exception exactly when the cipher raised the one of that name; the prekey / session / '
+                   'sender-key handler is chosen by the envelope type; decrypted -> retry counter reset, nothing sent; duplicate -> one '
+                   'receipt naming this message, nothing else; invalid message / key id -> ONE retry request for this message with our '
+                   'registration id; no session -> parked, the SENDER\'s keys fetched once, and when they arrive the parked messages of this '
+                   'conversation are processed once; untrusted identity -> ignored, or (auto-trust) the reported key pinned first.',
     'assumptions': ['python-axolotl (SessionCipher, GroupCipher, SessionBuilder) is outside the proofs: encrypt / decrypt are opaque events',
                     'random.randint(a, b) is in [a, b]', 'entity constructors (EncProtocolEntity, EncryptedMessageProtocolEntity, retry receipts) are '
                     'opaque events: what they serialise is C09',
                     'what a session / group cipher decrypts ends in 1..255 padding bytes each equal to their count (the peer runs this stack: '
                     'AxolotlManager.encrypt / group_encrypt contracts); an unpadded or empty plaintext from a foreign client is outside the claim',
-                    'the mapping of python-axolotl exception classes to the library-independent ones (decrypt_*) is not decided by the contracts '
-                    '(exception classes of external callees are not modelled); processPendingIncomingMessages is not under contract',
+                    'exception classes of opaque callees are told apart by their simple NAME (one symbolic class per raise); '
+                    'processPendingIncomingMessages is not under contract',
                     'getKeysFor continuation: proved for a request of two distinct jids (ListOf(jid, 2)) - bounded in the number of requested jids',
                     'skipEncJids: a recipient for whom the server returned no key bundle is written to unencrypted by design; outside the '
                     'conversations the statement quantifies over (every account has uploaded keys)'],
